@@ -26,7 +26,7 @@ the model does not have: the statement stops checking and the property is report
 namespace Shape
 open Gen.Shape
 
-theorem adsr : typesAdsr = ["PhaseAccumulator<TOT_NUM_ACCUM_BITS,NUM_LUT_INDEX_BITS>", "State", "SustainLevel",
+theorem adsr : typesAdsr = ["PhaseAccumulator<N,N>", "State", "SustainLevel",
     "TimePeriod", "TimePeriod", "TimePeriod", "f32", "f32", "f32"] := rfl
 /-- the five phases of `AdsrState` -/
 theorem adsrState : typesState = ["", "", "", "", ""] := rfl
